@@ -26,6 +26,14 @@ def _dtd_build(ex, args, res):
     disc = IV(z3.If(ok.t, 0, 1), 'isize', 0, 1)
     # c01_date_to_days_holds shows that every error is AstrolabeError::OutOfRange; its fields are not modelled here
     err = En(mk_int(0, 'isize'), {0: [Opaque('OutOfRange')]}, 'AstrolabeError')
+    # side fact (c01_triple_roundtrip_holds): the day built from a valid in-range triple reads back as that triple
+    d2d = ex.abstractions.get('days_to_date')
+    if isinstance(d2d, Abstraction) and d2d.contract_last == 'contract_days_to_date':
+        I = z3.IntSort()
+        y, m, d = [ex.deref(a) for a in args[:3]]
+        for nm, v in (('y', y), ('m', m), ('d', d)):
+            uf = z3.Function('A_days_to_date_%s' % nm, I, I)
+            ex.ctx.side.append(z3.Implies(ok.t, uf(k.t) == v.t))
     return En(disc, {0: [k], 1: [err]}, 'Result')
 oblig.ABSTRACTION_TABLE['date_to_days'] = lambda ex: Abstraction('date_to_days', 'contract_date_to_days', [('ok', 'bool'), ('k', 'i32', -2**31, 2**31 - 1)], build=_dtd_build)
 # the closed-form day count as an uninterpreted pure function (sound over-approximation; used where only congruence matters)
